@@ -367,3 +367,92 @@ def cache_sites(repo_src, extra_sources=None):
             if kind:
                 sites.append({'kind': kind, 'site': desc})
     return sites
+
+
+# ------------------------------------------------------------------------------------------ immutability of metadata
+IMMUTABLE_FILES = ['pharmpy/internals/immutable.py'] + FILES
+
+
+def store_sites(repo_src, extra_sources=None):
+    """every store that can change an object of an Immutable model class (DataInfo, ColumnInfo, Parameter(s),
+    RandomVariables, distributions, statements, execution steps, Model, frozenmapping) after construction, classified:
+    init      : attribute store on self inside __init__ (construction)
+    cache     : store into the `_hash` cache (covered by the cache obligation)
+    singleton : class attribute store inside __new__ (Output's singleton instance)
+    other     : attribute store / augmented store / del / setattr / subscript store into an own field / mutator
+                method on an own field, anywhere else  -> the object is not a value"""
+    MUT = {'append', 'extend', 'insert', 'remove', 'pop', 'clear', 'sort', 'reverse', 'update', 'setdefault', 'popitem',
+           'add', 'discard', '__setitem__', '__delitem__'}
+    sites = []
+    classes = {}
+    trees = {}
+    for rel in IMMUTABLE_FILES:
+        f = Path(repo_src) / rel
+        text = f.read_text()
+        if extra_sources and rel in extra_sources:
+            text = extra_sources[rel]
+        trees[rel] = ast.parse(text)
+        for node in trees[rel].body:
+            if isinstance(node, ast.ClassDef):
+                classes[node.name] = (rel, node, [ast.unparse(b).split('[')[0] for b in node.bases])
+    imm = {'Immutable'}
+    changed = True
+    while changed:
+        changed = False
+        for name, (rel, node, bases) in classes.items():
+            if name not in imm and any(b in imm for b in bases):
+                imm.add(name)
+                changed = True
+    imm.add('frozenmapping')
+    for name in sorted(imm):
+        if name not in classes or name == 'Immutable':
+            continue
+        rel, node, bases = classes[name]
+        for m in node.body:
+            if not isinstance(m, ast.FunctionDef):
+                continue
+            args = [a.arg for a in m.args.args]
+            own = set(args[:1]) | {'other'} if args else set()
+            for n in ast.walk(m):
+                kind = None
+                tgts = []
+                if isinstance(n, ast.Assign):
+                    tgts = n.targets
+                elif isinstance(n, (ast.AugAssign, ast.AnnAssign)):
+                    tgts = [n.target]
+                elif isinstance(n, ast.Delete):
+                    tgts = n.targets
+                for t in tgts:
+                    for x in ast.walk(t):
+                        if isinstance(x, ast.Attribute) and isinstance(x.ctx, (ast.Store, ast.Del)) and isinstance(x.value, ast.Name):
+                            if x.attr == '_hash':
+                                kind = 'cache'
+                            elif m.name in ('__init__', '__setstate__', '__post_init__') and x.value.id == 'self':
+                                kind = 'init'
+                            elif m.name == '__new__' and x.value.id == 'cls':
+                                kind = 'singleton'
+                            elif x.value.id in own or x.value.id in ('cls',):
+                                kind = 'other'
+                            else:
+                                # a store into a local object of unknown class inside a method of an immutable class:
+                                # builders (cb._g ...) are local mutable helpers, instances of immutable classes are not
+                                kind = 'other' if x.attr.startswith('_') and x.value.id not in ('cb', 'builder') else None
+                        elif (isinstance(x, ast.Subscript) and isinstance(x.ctx, (ast.Store, ast.Del))
+                              and isinstance(x.value, ast.Attribute) and isinstance(x.value.value, ast.Name)
+                              and x.value.value.id in own and m.name != '__init__'):
+                            kind = 'other'
+                        if kind:
+                            sites.append({'kind': kind, 'site': f'{rel}:{name}.{m.name}:{n.lineno}: {ast.unparse(n)[:60]}'})
+                            kind = None
+                if isinstance(n, ast.Call):
+                    f_ = n.func
+                    if isinstance(f_, ast.Name) and f_.id in ('setattr', 'delattr') and n.args and isinstance(n.args[0], ast.Name) \
+                            and n.args[0].id in own:
+                        sites.append({'kind': 'other', 'site': f'{rel}:{name}.{m.name}:{n.lineno}: {ast.unparse(n)[:60]}'})
+                    elif isinstance(f_, ast.Attribute) and f_.attr == '__setattr__':
+                        sites.append({'kind': 'other', 'site': f'{rel}:{name}.{m.name}:{n.lineno}: {ast.unparse(n)[:60]}'})
+                    elif (isinstance(f_, ast.Attribute) and f_.attr in MUT and isinstance(f_.value, ast.Attribute)
+                          and isinstance(f_.value.value, ast.Name) and f_.value.value.id in own
+                          and m.name not in ('__init__', '__setstate__', '__post_init__')):
+                        sites.append({'kind': 'other', 'site': f'{rel}:{name}.{m.name}:{n.lineno}: {ast.unparse(n)[:60]}'})
+    return sites, sorted(imm - {'Immutable'})
